@@ -46,16 +46,21 @@ def rbytes(r, n):
 
 
 class Refs:
+    """explicit reference numbers that can never meet one the library hands out: Hnewref returns maxref + 1 and maxref
+    dominates every explicit ref used so far, so explicit refs are taken from a strictly DESCENDING sequence (a later
+    explicit ref is below every ref in the file, explicit or chosen by Hnewref).  A session whose 'new' element met
+    an existing tag/ref would modify an old object, which is outside the property"""
     def __init__(self):
-        self.used = set()
+        self.next = None
 
     def new(self, r, tag):
-        for _ in range(200):
-            ref = r.randrange(1, 60)
-            if (tag, ref) not in self.used:
-                self.used.add((tag, ref))
-                return ref
-        raise RuntimeError("refs exhausted")
+        if self.next is None:
+            self.next = r.choice([300, 3000, 30000])
+        ref = self.next
+        self.next -= r.choice([1, 1, 1, 2, 5])
+        if self.next < 2:
+            raise RuntimeError("refs exhausted")
+        return ref
 
 
 def h_op(r, refs, big=False):
@@ -175,12 +180,12 @@ def gen_session(r, name, kind=None):
         olds = [(o.split()[1], o.split()[2]) for o in base if o.split()[0] in ("put", "sw") and
                 (o.split()[0] == "put" or o.split()[3] != "0")]
         if not olds:
-            base.append("put 800 77 aabbcc")
-            olds = [("800", "77")]
+            base.append("put 800 %d aabbcc" % refs.new(r, 800))
+            olds = [tuple(base[-1].split()[1:3])]
         last_h = [o for o in base if o.split()[0] in ("put", "sw", "vs", "vg", "hl", "app")][-1].split()
         if last_h[0] != "put":
-            base.append("put 801 78 0102030405060708")
-            olds.append(("801", "78"))
+            base.append("put 801 %d 0102030405060708" % refs.new(r, 801))
+            olds.append(tuple(base[-1].split()[1:3]))
         victims = [olds[-1]] if r.random() < 0.8 else []
         victims += [o for o in olds[:-1] if r.random() < 0.3]
         ops = ["del %s %s" % v for v in victims] + [h_op(r, refs) for _ in range(r.choice([1, 2, 4]))]
@@ -198,6 +203,25 @@ def gen_session(r, name, kind=None):
         pool = [lambda: h_op(r, refs), lambda: v_op(r, names), lambda: sd_op(r, names), lambda: gr_op(r, names),
                 lambda: an_op(r, refs)]
         ops = [r.choice(pool)() for _ in range(r.choice([3, 5, 8]))]
+    if kind in FULL_KINDS and r.random() < 0.45:
+        # the session also READS old elements while it appends (e.g. to copy them): space is reserved, an old element
+        # is read, then the new one is written
+        olds = [o.split() for o in base if o.split()[0] == "put" and len(o.split()) == 4 and o.split()[3] != "-"]
+        hls = [o.split() for o in base if o.split()[0] == "hl"]
+        if olds:
+            for _ in range(r.choice([1, 2, 3])):
+                c = r.random()
+                if c < 0.55:
+                    tag = r.choice(HTAGS)
+                    g = r.choice(olds)
+                    at = r.randrange(len(ops) + 1)
+                    ops.insert(at, "cp %d %d %s %s" % (tag, refs.new(r, tag), g[1], g[2]))
+                    if r.random() < 0.6:      # the last physical operation before the copy is a read
+                        g2 = r.choice(olds)
+                        ops.insert(at, "get %s %s" % (g2[1], g2[2]))
+                else:
+                    g = r.choice(olds + hls)
+                    ops.insert(r.randrange(len(ops) + 1), "get %s %s" % (g[1], g[2]))
     if kind in FULL_KINDS and len(ops) >= 2 and r.random() < 0.3:
         ops.insert(r.randrange(1, len(ops)), "sync")
     return {"name": name, "kind": kind, "ndds": ndds, "base": base, "ops": ops}
@@ -214,7 +238,17 @@ def gen_refwrap(r, name):
         if flavour == "h" or (flavour == "hv" and r.random() < 0.5):
             return "putn 800 %s" % hexs(rbytes(r, 4))
         return v_op(r, names)
-    base = [one() for _ in range(r.randrange(ndds + 1, 3 * ndds + 2))]
+    base = []
+    if r.random() < 0.6:
+        # descriptors NOT in ascending order of their reference numbers: explicit refs 2..k+1 in a random order ...
+        k = r.randrange(3, 2 * ndds + 1)
+        perm = list(range(2, k + 2))
+        r.shuffle(perm)
+        base += ["put 800 %d %s" % (x, hexs(rbytes(r, 4))) for x in perm]
+    base += [one() for _ in range(r.randrange(ndds + 1, 3 * ndds + 2) - len(base) // 2)]
+    if flavour != "h" and r.random() < 0.6:
+        # ... or two Vgroups detached in the opposite order of their creation
+        base.insert(r.randrange(len(base) + 1), "vg2 ra%d rb%d rc %d" % (len(base), len(base), r.randrange(1, 30000)))
     base.append("put 803 65535 %s" % hexs(rbytes(r, 3)))
     ops = [one() for _ in range(r.choice([1, 2, 3, ndds + 1]))]
     if len(ops) >= 2 and r.random() < 0.3:
@@ -335,6 +369,14 @@ def model_ops(s):
             out.append("putn %s %d %s" % (t[1], 0 if t[2] == "-" else len(t[2]) // 2, t[2]))
         elif t[0] == "del":
             out.append(o)
+        elif t[0] == "get":
+            out.append("get")
+        elif t[0] == "cp":
+            src = [b.split() for b in s["base"] if b.split()[0] == "put" and b.split()[1:3] == t[3:5]]
+            if not src or len(src[0]) < 4:
+                return None
+            hx = src[0][3]
+            out.append("copy %s %s %d %s" % (t[1], t[2], 0 if hx == "-" else len(hx) // 2, hx))
         elif t[0] == "sync":
             out.append("sync")
         else:
